@@ -11,6 +11,7 @@ CONSTANTS
   Ats <- AtsNone
   Ranges = {3}
   Funcs = {"count_over_time", "last_over_time"}
+  TsFuncs = {"timestamp"}
   SqRanges = {4}
   SqSteps = {2}
   SqOffs = {0}
